@@ -259,7 +259,8 @@ def gradient_oracle(ctx, rng, n_geom):
                 # them is laminar for one family and in transition for the other
                 pd_ = dims['pin_pitch'] / dims['pin_diameter']
                 bl_ctd, bl_uctd = 300.0 * 10 ** (1.7 * (pd_ - 1.0)), 320.0 * 10 ** (pd_ - 1.0)
-                for Re in (10.0, 300.0, bl, rng.uniform(bl, 2 * bl), 0.5 * (bl_ctd + bl_uctd), 1.03 * max(bl_ctd, bl_uctd),
+                for Re in (10.0, 300.0, bl, 1.000001 * bl, 1.005 * bl, 1.02 * bl, rng.uniform(bl, 2 * bl), 0.5 * (bl_ctd + bl_uctd),
+                           1.03 * max(bl_ctd, bl_uctd),
                            0.97 * min(bl_ctd, bl_uctd), 5.0e3, rng.uniform(0.6 * bt, bt), bt * (1 - 1e-9), bt, 1.0e5, 1.0e6):
                     mfr = Re * 2.5e-4 * rr0.bundle_params['area'] / rr0.bundle_params['de']
                     rr = du.make_rr(dims, flow_rate=mfr, coolant=cool, corr=corr, spacer_grid=grid)
@@ -285,6 +286,15 @@ def gradient_oracle(ctx, rng, n_geom):
                     x = np.array(rr.coolant_int_params['fs'], dtype=float)
                     if not (np.all(np.isfinite(x)) and np.all(x > 0)):
                         continue
+                    # mass conservation of whatever branch produced the split (converged iteration or the closed-form fall-back
+                    # just above the laminar boundary)
+                    nsc_ = np.array([rr.subchannel.n_sc['coolant'][k_] for k_ in ('interior', 'edge', 'corner')])
+                    mass_ = float(np.sum(nsc_ * rr.params['area'] * x) / rr.bundle_params['area'])
+                    if abs(mass_ - 1.0) > 1e-6:
+                        ctx.violation("c12-mass:%s%s" % (fam, ":fallback" if calls else ""), "%s flow split at Re = %.6g (%.4f x the laminar "
+                                      "boundary%s): flow-area-weighted mean of the split factors is %.8f, not one"
+                                      % (fam, Re, Re / bl, ", closed-form fall-back after the iteration limit" if calls else "", mass_),
+                                      family=fam, n_ring=n_ring, Re=Re, dims=dims, grid=bool(grid), fs=x.tolist())
                     regime = 'laminar' if rr.coolant_int_params['Re'] <= bl else ('turbulent' if rr.coolant_int_params['Re'] >= bt else 'transition')
                     g, loss = update_map(rr, x, lam, bool(grid), 1.0, regime if grid is None else None)
                     info = dict(family=fam, n_ring=n_ring, Re=Re, dims=dims, grid=bool(grid), fs=x.tolist(), regime=regime,
